@@ -28,7 +28,7 @@ id,v,tests,w,wo,name=sys.argv[1:7]
 out='/verif/seeded/%s'%name
 notes=open(os.path.join(out,'NOTES.md')).read()
 meta={"property":id,"variant":v,"breaks":id,"needs_to_manifest":notes[:1500],
- "confirmed":{"worktree":"/tmp/wt/%s (scratch, removed afterwards)"%id,"suite_with_patch":tests.strip(),"demo_with_patch_exit":int(w),"demo_without_patch_exit":int(wo),
+ "confirmed":{"worktree":"%s (scratch, removed afterwards)"%os.environ.get("WTDIR","/tmp/wt/"+id),"suite_with_patch":tests.strip(),"demo_with_patch_exit":int(w),"demo_without_patch_exit":int(wo),
  "commands":["git apply patch.diff","cargo nextest run --workspace --no-fail-fast --offline","(cd demo && cargo run|test --offline)","git checkout -- .","(cd demo && cargo run|test --offline)"]},
  "detected_by":None}
 json.dump(meta,open(os.path.join(out,'meta.json'),'w'),indent=1)
